@@ -197,7 +197,10 @@ func (r *readOnlySegmentsGroup) PollHighestSegment() (object.RefCount[ReadOnlySe
 	r.allSegments.Remove(offset)
 	segment, found := r.openSegments.Get(offset)
 	if found {
-		return segment.Acquire(), nil
+		// The caller takes over the segment (to delete it or to re-open it
+		// for writing): it must not stay in the cache of open segments
+		r.openSegments.Remove(offset)
+		return segment, nil
 	}
 
 	roSegment, err := newReadOnlySegment(r.basePath, offset)
